@@ -82,7 +82,7 @@ CAST_OPS = ["add_broadcast", "multiply_out", "multiply3", "power3", "aspolynomia
             "from_data", "dtype_request", "aspolynomial", "aspolynomial_poly", "from_attributes",
             "from_attributes_mixed", "dict_mixed", "variable", "symbols", "astype", "add", "subtract",
             "multiply", "power", "getitem", "reshape", "transpose", "concatenate", "stack", "where",
-            "scalar_from_data"]
+            "scalar_from_data", "power_exact"]
 
 
 def data_for(rng, dtype, shape):
@@ -111,6 +111,9 @@ def same(a, b):
     a, b = numpy.asarray(a), numpy.asarray(b)
     if a.shape != b.shape:
         return False
+    if a.dtype.kind in "iub" and b.dtype.kind in "iub":
+        # exact also beyond 2**53 (uint64 / int64 do not fit float64)
+        return bool(numpy.array_equal(a.astype(object), b.astype(object)))
     return bool(numpy.array_equal(a.astype(numpy.complex128), b.astype(numpy.complex128)))
 
 
@@ -223,6 +226,18 @@ def run_cast_case(case, ctx):
                 src = two_term(a)
                 check_terms(ctx, facts, case, src.astype(T), {(0,): cast(a, T), (1,): cast(a, T)}, T,
                             "astype(T)")
+                # ... and of arrays numpy derives from it through ndarray methods
+                import copy as _copy
+                for label, derive, on in (
+                        ("copy()", lambda p: p.copy(), lambda x: x),
+                        ("ravel()", lambda p: p.ravel(), lambda x: x.ravel()),
+                        ("T", lambda p: p.T, lambda x: x.T),
+                        ("deepcopy", _copy.deepcopy, lambda x: x),
+                        ("flatten()", lambda p: p.flatten(), lambda x: x.flatten())):
+                    ctx.count("astype_derived")
+                    check_terms(ctx, facts, case, derive(src).astype(T),
+                                {(0,): cast(on(a), T), (1,): cast(on(a), T)}, T,
+                                f"{label}.astype(T)")
             elif op in ("add", "subtract"):
                 if res_dtype == numpy.dtype(bool) or (op == "subtract" and res_dtype.kind == "u"):
                     return
@@ -304,6 +319,27 @@ def run_cast_case(case, ctx):
                     if not check_terms(ctx, facts, case, got, {(0,): cast(a, T), (1,): cast(a, T)},
                                        T, f"aspolynomial(poly, names={label}, dtype=T)"):
                         break
+            elif op == "power_exact":
+                # powers are products in the coefficient dtype itself: no detour through a wider
+                # (or a floating) type. Values that a detour would round: integers beyond 2**53,
+                # non-dyadic float16/32 values
+                sd = numpy.dtype(S)
+                if sd.kind == "b":
+                    return
+                if sd.kind in "iu":
+                    top = int(numpy.iinfo(sd).max)
+                    pool = [top, top - 2, top // 2 + 1, int(top ** 0.5) + 1, 3]
+                else:
+                    pool = [1.1, 0.7, 1.3, 2.9, 0.3]
+                flat = numpy.array([pool[int(v) % len(pool)] for v in
+                                    rng.integers(0, len(pool), size=max(a.size, 1))])
+                c = flat[:a.size].astype(sd).reshape(a.shape) if a.size else a
+                x = numpoly.polynomial_from_attributes([[1]], [c], names=("q0",), dtype=S)
+                with numpy.errstate(all="ignore"):
+                    for n, want in ((1, c), (2, c * c), (3, (c * c) * c)):
+                        if not check_terms(ctx, facts, case, x ** n, {(n,): want}, S,
+                                           f"(c*q0)**{n} with coefficients near the limits of {S}"):
+                            break
             elif op == "power":
                 if S == "bool":
                     return
